@@ -64,7 +64,7 @@ pub fn line_kinds() -> Vec<(&'static [u8], &'static str)> {
 /// one representative per syntactic role a line part can play, combined freely
 pub const PREFIXES: [&str; 8] = ["", "$ ", "> ", "[", "# ", "  ", "`", "\\"];
 pub const BODIES: [&[u8]; 9] = [b"x", b"", b"a\\tb", b"a\\", b"\x1b", "\u{e9}".as_bytes(), b"```", b"1]", b"\\x41"];
-pub const SUFFIXES: [&str; 8] = ["", " (glob)", " (?)", " ()", " (escaped)", " (no-eol)", " ", " (equal)"];
+pub const SUFFIXES: [&str; 10] = ["", " (glob)", " (?)", " ()", " (escaped)", " (no-eol)", " ", " (equal)", "\u{a0}(glob)", "\u{3000}(?)"];
 
 pub fn product_line(i: usize) -> Vec<u8> {
     let (p, rest) = (i % PREFIXES.len(), i / PREFIXES.len());
